@@ -323,6 +323,9 @@ func (s *Stmt) apply(t *Table, st *TabState, auto *int64) ([]Effect, bool) {
 		i := st.find(r.Key)
 		if i < 0 {
 			row := Row{Key: append([]Val{}, r.Key...), Vals: append([]Val{}, r.Vals...)}
+			if len(t.Keys) == 1 && t.Keys[0].AutoInc && row.Key[0].int() >= *auto {
+				*auto = row.Key[0].int() + 1
+			}
 			st.Rows = append(st.Rows, row)
 			return []Effect{{Kind: "insert", Table: t.Name, Rows: []Row{row}}}, true
 		}
